@@ -17,7 +17,12 @@ TraceParse ==
   /\ Flatten(Log[l].prog) = Instrs(Log[l].genes)
   /\ WellFormed(Log[l].prog)
 
-TraceNext == l <= Len(Log) /\ l' = l + 1 /\ TraceParse /\ UNCHANGED smvars
+(* deeply nested programs are logged as their token sequence *)
+TraceParseFlat ==
+  /\ Log[l].ev = "parse_flat"
+  /\ Log[l].tokens = Tokens(Parse(Log[l].genes))
+
+TraceNext == l <= Len(Log) /\ l' = l + 1 /\ (TraceParse \/ TraceParseFlat) /\ UNCHANGED smvars
 
 TraceSpec == TraceInit /\ [][TraceNext]_<<smvars, l>>
 
